@@ -1,11 +1,13 @@
 (* C09 — property theorems only: each closed by [exact] of a lemma proved elsewhere.
    Subject: Engine/Conc.v [run] — any number of threads (the SAME program terms [install] /
    [upgrade] of Engine/Ops.v), EVERY schedule at single-effect granularity, EVERY cluster
-   behaviour [kh] (so cluster faults are included), atomic storage calls. *)
+   behaviour [kh] (so cluster faults are included), atomic storage calls.  [op_prog_fx] runs
+   install as [OpsFix.install_fx] = Ops.install with the repaired replaceRelease (identical when
+   --replace is off, [install_fx_eq]); upgrade is Ops.upgrade. *)
 From Coq Require Import List String Bool Arith.
-From Helm Require Import Engine.Types Engine.Eff Engine.Ops Engine.Cluster Engine.Seq Engine.SeqProofs
+From Helm Require Import Engine.Types Engine.Eff Engine.Ops Engine.OpsFix Engine.Cluster Engine.Seq Engine.SeqProofs
                          Engine.Conc Engine.ConcProofs Engine.ConcLocal Engine.ConcProofsB
-                         Engine.ConcRG Engine.ConcRGProgs Engine.ConcC09.
+                         Engine.ConcRG Engine.ConcRGProgs Engine.ConcPrune Engine.ConcC09.
 Import ListNotations.
 
 (* Totality: when [run] ends every thread has returned (the statements below are about
@@ -39,7 +41,7 @@ Theorem C09_unique_creator :
                      | _ => False
                      end) ops ->
     NoDup (revs l0) ->
-    let res := run K kh dresp outcome (map (op_prog rn ns) ops) sch (mkC l0 k []) in
+    let res := run K kh dresp outcome (map (op_prog_fx rn ns) ops) sch (mkC l0 k []) in
     let tr := c_tr (snd res) in
     NoDup (created_revs tr)
     /\ (forall v, In v (revs (c_led (snd res))) -> ~ In v (revs l0) -> exists i, creators_of v tr = [i])
@@ -56,7 +58,7 @@ Theorem C09_losers_are_inert :
   forall (K : Type) (kh : forall e : eff, K -> K * resp e * list kev) (dresp : forall e, resp e)
          (rn ns : string) (ts : list (prog outcome)) (sch : list nat) (l : list release) (k : K)
          (i : nat) (o : op),
-    nth_error ts i = Some (op_prog rn ns o) ->
+    nth_error ts i = Some (op_prog_fx rn ns o) ->
     match o with OpInstall _ _ _ _ _ | OpUpgrade _ _ _ _ _ => True | _ => False end ->
     let res := run K kh dresp outcome ts sch (mkC l k []) in
     let tr := c_tr (snd res) in
@@ -93,7 +95,7 @@ Theorem C09_loser_name_in_use :
          (rn ns : string) (ts : list (prog outcome)) (sch : list nat) (l : list release) (k : K)
          (i : nat) fl cid vid mani hks,
     f_dry_run fl = false ->
-    nth_error ts i = Some (install rn ns fl cid vid mani hks) ->
+    nth_error ts i = Some (install_fx rn ns fl cid vid mani hks) ->
     let res := run K kh dresp outcome ts sch (mkC l k []) in
     let evs := thread_events i (c_tr (snd res)) in
     exists h, first_history evs = Some h
@@ -118,24 +120,44 @@ Theorem C09_quiescent_wf :
                      | _ => False
                      end) ops ->
     NoDup (revs l0) -> count_deployed l0 <= 1 -> lock_free l0 = true ->
-    let res := run K kh dresp outcome (map (op_prog rn ns) ops) sch (mkC l0 k []) in
+    let res := run K kh dresp outcome (map (op_prog_fx rn ns) ops) sch (mkC l0 k []) in
     NoDup (revs (c_led (snd res))) /\ count_deployed (c_led (snd res)) <= 1.
 Proof. exact quiescent_wf. Qed.
 Print Assumptions C09_quiescent_wf.
 
-(* The excluded flags are excluded for a reason.  --replace (K-C09-1, reproduced on the real
-   code): install --replace racing a plain install of a fresh name, object-store cluster, no
-   fault: both report success and two revisions are deployed. *)
+(* The excluded flags are excluded for a reason.  --replace: K1 of C01, which is sequential — ONE
+   install --replace on a history whose last revision is failed and an older one is deployed
+   (hypotheses met: distinct revisions, one deployed, last not pending) leaves two deployed. *)
 Theorem C09_quiescent_wf_replace_refuted :
-  exists (ops : list op) (sch : list nat),
-    Forall (fun o => match o with OpInstall fl _ _ _ _ => f_atomic fl = false | _ => False end) ops
+  exists (o : op) (l0 : list release),
+    match o with OpInstall fl _ _ _ _ => f_atomic fl = false | _ => False end
+    /\ NoDup (revs l0) /\ count_deployed l0 <= 1 /\ lock_free l0 = true
     /\ let res := run kstate (kube_handle "rel" "default") dead_resp outcome
-                      (map (op_prog "rel" "default") ops) sch (mkC [] (k0 []) []) in
-       outcomes outcome (fst res) = [Some OOk; Some OOk] /\ count_deployed (c_led (snd res)) = 2.
+                       [op_prog_fx "rel" "default" o] [] (mkC l0 (k0 x_objs) []) in
+       outcomes outcome (fst res) = [Some OOk] /\ count_deployed (c_led (snd res)) = 2.
 Proof.
-  exists x_replace_ops, x_replace_sched. split; [repeat constructor|exact quiescent_wf_replace_refuted].
+  exists (OpInstall x_flR 4 4 [x_cm "a" "v4"] []), x_k1_led.
+  split; [reflexivity|]. split; [repeat constructor; simpl; intuition discriminate|].
+  split; [vm_compute; auto|]. split; [reflexivity|exact quiescent_wf_replace_refuted].
 Qed.
 Print Assumptions C09_quiescent_wf_replace_refuted.
+
+(* K-C09-1, found here and repaired in /repo: with the program BEFORE the repair, install
+   --replace racing a plain install of a fresh name makes both succeed with two deployed; with
+   the repaired program the same schedule gives "another operation is in progress", no mutation. *)
+Example C09_replace_race_before_fix :
+  let res := run kstate (kube_handle "rel" "default") dead_resp outcome
+                 (map (op_prog "rel" "default") x_replace_ops) x_replace_sched (mkC [] (k0 []) []) in
+  outcomes outcome (fst res) = [Some OOk; Some OOk] /\ count_deployed (c_led (snd res)) = 2.
+Proof. exact replace_race_before_fix. Qed.
+Print Assumptions C09_replace_race_before_fix.
+
+Example C09_replace_race_after_fix :
+  let res := x_run x_replace_ops x_replace_sched [] (k0 []) in
+  outcomes outcome (fst res) = [Some (OErr EPending); Some OOk] /\ count_deployed (c_led (snd res)) = 1
+  /\ thread_mutated 0 (c_tr (snd res)) = false.
+Proof. exact replace_race_after_fix. Qed.
+Print Assumptions C09_replace_race_after_fix.
 
 (* --atomic on upgrade: when the cluster rejects one request of the atomic upgrade, its
    automatic rollback (which does not check for a pending revision) races the other upgrade. *)
@@ -144,7 +166,7 @@ Theorem C09_quiescent_wf_atomic_refuted :
     Forall (fun o => match o with OpUpgrade fl _ _ _ _ => f_max_history fl = 0 | _ => False end) ops
     /\ NoDup (revs l0) /\ count_deployed l0 <= 1 /\ lock_free l0 = true
     /\ count_deployed (c_led (snd (run kstate (kube_handle "rel" "default") dead_resp outcome
-                                     (map (op_prog "rel" "default") ops) sch (mkC l0 k [])))) = 2.
+                                     (map (op_prog_fx "rel" "default") ops) sch (mkC l0 k [])))) = 2.
 Proof.
   exists x_atomic_ops, x_atomic_sched, x_dep, (mkK x_objs (Some (VCreate, "ConfigMap/c"%string)) None false).
   split; [repeat constructor|]. destruct x_ok_hyps as [_ [_ [H1 [H2 H3]]]].
@@ -184,3 +206,69 @@ Example C09_name_in_use_example :
   /\ List.length (thread_events 0 (c_tr (snd res))) = 1.
 Proof. exact x_name_in_use_run. Qed.
 Print Assumptions C09_name_in_use_example.
+
+(* Three concurrent operations (the quiescence theorem is for any number): upgrade | install |
+   upgrade meet the hypotheses; one wins, one gets "exists", the install "name in use". *)
+Example C09_three_operations_example :
+  (Forall protocol_op x_three_ops /\ Forall no_delete_op x_three_ops)
+  /\ let res := x_run x_three_ops x_three_sched x_dep (k0 x_objs) in
+     outcomes outcome (fst res) = [Some (OErr EExistsRev); Some (OErr ENameInUse); Some OOk]
+     /\ map (fun r => (rev r, st r)) (c_led (snd res)) = [(1, SSuperseded); (2, SSuperseded); (3, SDeployed)]
+     /\ creations (c_tr (snd res)) = [(2, 3)].
+Proof. exact (conj x_three_hyps x_three_run). Qed.
+Print Assumptions C09_three_operations_example.
+
+(* Unique creator when deletes are possible (install --atomic purges its own history on failure;
+   history pruning): for ANY programs, every schedule, every cluster: creations that are still
+   live (not retired by a successful delete of the revision) have distinct revisions, are in the
+   ledger, and every revision of the ledger is initial or has one — a revision is never created
+   twice without a successful delete in between. *)
+Theorem C09_live_creator_unique :
+  forall (K : Type) (kh : forall e : eff, K -> K * resp e * list kev) (dresp : forall e, resp e)
+         (ts : list (prog outcome)) (sch : list nat) (l0 : list release) (k : K),
+    let res := run K kh dresp outcome ts sch (mkC l0 k []) in
+    let live := map snd (live_creations (c_tr (snd res))) in
+    NoDup live
+    /\ (forall v, In v live -> In v (revs (c_led (snd res))))
+    /\ (forall v, In v (revs (c_led (snd res))) -> In v (revs l0) \/ In v live).
+Proof. exact live_creator_unique. Qed.
+Print Assumptions C09_live_creator_unique.
+
+(* ... and the trace-level form of C09_unique_creator is false for install --atomic: a failed
+   atomic install (one rejected cluster request) purges its record, a later install creates
+   revision 1 again (replayed on the real code: corpus case "atomic install purges"). *)
+Theorem C09_unique_creator_atomic_install_refuted :
+  exists (ops : list op) (sch : list nat) (k : kstate),
+    let res := run kstate (kube_handle "rel" "default") dead_resp outcome
+                   (map (op_prog_fx "rel" "default") ops) sch (mkC [] k []) in
+    creations (c_tr (snd res)) = [(0, 1); (1, 1)] /\ live_creations (c_tr (snd res)) = [(1, 1)].
+Proof.
+  exists x_atomic_install_ops, [0; 0; 0; 0; 0; 0; 0; 0; 0; 0; 0; 0], (mkK [] (Some (VCreate, "ConfigMap/a"%string)) None false).
+  destruct unique_creator_atomic_install_refuted as [H1 [H2 _]]. split; assumption.
+Qed.
+Print Assumptions C09_unique_creator_atomic_install_refuted.
+
+(* Pruning window, true form: whatever an upgrade --max-history N thread deletes (among any
+   threads, every schedule, every cluster) is a revision v such that the thread's own latest
+   history read contains at least N-1 revisions numbered >= v. *)
+Theorem C09_pruning_window :
+  forall (K : Type) (kh : forall e : eff, K -> K * resp e * list kev) (dresp : forall e, resp e)
+         (rn ns : string) (ts : list (prog outcome)) (sch : list nat) (l : list release) (k : K)
+         (i : nat) fl cid vid mani hks,
+    nth_error ts i = Some (upgrade rn ns fl cid vid mani hks) ->
+    deletes_justified (f_max_history fl - 1) None
+      (thread_events i (c_tr (snd (run K kh dresp outcome ts sch (mkC l k []))))).
+Proof. exact upgrade_prunes_old. Qed.
+Print Assumptions C09_pruning_window.
+
+(* ... the form stated in DESIGN.md ("at least N intervening COMPLETED operations") is false:
+   max-history 2, no operation completes in between — the stale upgrade prunes the other
+   upgrade's pending revision 3 and creates revision 3 itself (seen on the real code). *)
+Theorem C09_pruning_window_refuted :
+  let res := run_gated kstate (kube_handle "rel" "default") dead_resp outcome
+                 (map (op_prog_fx "rel" "default") x_prune_ops) x_prune_sched (mkC x_prune_led (k0 x_objs) []) in
+  creations (c_tr (snd res)) = [(1, 3); (0, 3)]
+  /\ live_creations (c_tr (snd res)) = [(0, 3)]
+  /\ nth_error (outcomes outcome (fst res)) 1 = Some (Some (OErr EOtherErr)).
+Proof. exact pruning_window_refuted. Qed.
+Print Assumptions C09_pruning_window_refuted.
